@@ -101,6 +101,11 @@ CHECKS["C12"] = dict(
    text="Three parts: (1) every registry key is checked for consecutive versions, matching savers/loaders and save-uses-newest, and generated VersionedDict operation sequences are compared with a dict model; (2) for every (type, version) with several registered versions, generated sessions are written in that version's format by a serializer subclass that pins the version and loaded by the stock unserializer, and the observation must agree on every field that version wrote; (3) every rename-table entry must terminate, resolve when it points into glue, and not capture a class this package still defines and writes (the written _type set is measured from a saved session with all four viewers).",
    note="Trusted: pbt/session.py observation; per-version field table in pbt/props/c12.py; two open findings (histogram/profile layer-artist renames) suppressed by exact signature and reproduced on every run.",
    ref="DESIGN.md section 4 C12")
+CHECKS["C18"] = dict(
+   technique="stateful property-based testing (Hypothesis op lists) of headless viewers and combo helpers against a layer/choice model",
+   text="History search with a model and an invariant: for each built-in viewer kind, generated interleavings of collection operations (append/remove/re-append data, create/remove groups, add/remove components), viewer operations (add_data, add_subset, remove_data, removing one layer), delay blocks and application save+restore run on a headless application; after every step the viewer's layer list, its state's layer list and the model's layer set must agree and nothing may remain for removed objects; image axes must be distinct pixel axes of the reference data. ComponentIDComboHelper / ManualDataComboHelper histories (dataset/component churn, filter toggles, renames, selections) are checked against the documented filter and the selection rule.",
+   note="Trusted: the layer model in pbt/props/c18.py (a subset layer is added only when the dataset's layer is present); few and short viewer histories (cost); two open findings (restoring histogram/profile viewers needs glue_qt) excluded by construction and reproduced on every run.",
+   ref="DESIGN.md section 4 C18")
 NOT_APPLICABLE = []
 
 def main():
